@@ -47,6 +47,7 @@ impl Monitor for C13 {
             "subset/singleton",
             "subset/full",
             "subset/ancestor_with_descendant",
+            "subset/more_than_30_members",
             "member_is_modifier",
             "member_is_obsolete",
             "member_names_replacement",
@@ -131,6 +132,12 @@ impl Monitor for C13 {
         for _ in 0..6 {
             let k = rng.urange(1, ids.len().min(14));
             subsets.push(rng.sample_indices(ids.len(), k).iter().map(|i| ids[*i]).collect());
+        }
+        if ids.len() > 34 {
+            // more members than the inline capacity (30) of the id group
+            let k = rng.urange(31, ids.len().min(60));
+            subsets.push(rng.sample_indices(ids.len(), k).iter().map(|i| ids[*i]).collect());
+            out.bucket("subset/more_than_30_members");
         }
 
         out.sig = hash_u64s(&[view.content_hash(), rng.clone().next_u64()]);
